@@ -31,6 +31,43 @@ def _merge_counter(dst: dict, src: dict) -> None:
         dst[k] = dst.get(k, 0) + v
 
 
+def run_case_of(mod, case: dict, cap: float = 600.0) -> dict:
+    """mod.run_case(case); for modules marked HERMETIC, in a forked child, so that state which the code under
+    test keeps at module level cannot travel from one run to the next (a run is a function of its case alone,
+    exactly what a replay in a fresh interpreter executes)."""
+    if not getattr(mod, "HERMETIC", False):
+        return mod.run_case(case)
+    import pickle
+
+    r, w = os.pipe()
+    pid = os.fork()
+    if pid == 0:
+        code = 0
+        try:
+            os.close(r)
+            try:
+                res = mod.run_case(case)
+                try:
+                    pickle.dumps(res)
+                except Exception:  # noqa: BLE001
+                    res = json.loads(json.dumps(res, default=str))
+            except BaseException as e:  # noqa: BLE001
+                res = {"violation": None, "error": f"{type(e).__name__}: {e} / {traceback.format_exc()[-1500:]}", "stats": {}, "steps": 0, "distinct": [], "states": [], "case": case}
+            with os.fdopen(w, "wb") as f:
+                pickle.dump(res, f)
+        except BaseException:  # noqa: BLE001
+            code = 3
+        finally:
+            os._exit(code)
+    os.close(w)
+    with os.fdopen(r, "rb") as f:
+        data = f.read()
+    _, status = os.waitpid(pid, 0)
+    if not data:
+        return {"violation": None, "error": f"hermetic child died (status {status})", "stats": {}, "steps": 0, "distinct": [], "states": [], "case": case}
+    return pickle.loads(data)
+
+
 def _work(mod_name: str, tier: str, base_seed: int, start: int, count: int, deadline: float, per_run_cap: float):
     """Runs in a forked worker process."""
     faulthandler.enable()
@@ -65,7 +102,7 @@ def _work(mod_name: str, tier: str, base_seed: int, start: int, count: int, dead
         faulthandler.dump_traceback_later(per_run_cap, exit=True)
         try:
             case = mod.gen_case(run_seed, tier, i)
-            res = mod.run_case(case)
+            res = run_case_of(mod, case, per_run_cap)
         except BaseException as e:  # noqa: BLE001
             faulthandler.cancel_dump_traceback_later()
             out["errors"].append({"index": i, "run_seed": run_seed, "error": f"{type(e).__name__}: {e}", "tb": traceback.format_exc()[-3000:]})
@@ -183,7 +220,7 @@ def minimise(mod, case: dict, violation: dict, budget: int = 300, wall: float = 
                 break
             tries += 1
             try:
-                res = mod.run_case(cand)
+                res = run_case_of(mod, cand)
             except BaseException:  # noqa: BLE001
                 continue
             v = res.get("violation") or (res.get("violations") or [None])[0]
